@@ -7,8 +7,10 @@ base = json.load(open("/root/.vp/BASELINE.json"))
 stable = set(base["stable_pass"])
 fd, path = tempfile.mkstemp(suffix=".xml"); os.close(fd)
 env = dict(os.environ); env.pop("SKCHANGE_VERIF", None)
+root = sys.argv[1] if len(sys.argv) > 1 else "/repo"
+env["PYTHONPATH"] = root
 subprocess.run(["/venv/bin/python", "-m", "pytest", "-q", "-p", "no:cacheprovider", "--timeout=900",
-                "--continue-on-collection-errors", f"--junitxml={path}"], cwd="/repo", env=env,
+                "--continue-on-collection-errors", f"--junitxml={path}", "skchange"], cwd=root, env=env,
                stdout=subprocess.DEVNULL, stderr=subprocess.DEVNULL)
 passed = set()
 for tc in ET.parse(path).getroot().iter("testcase"):
